@@ -43,7 +43,7 @@ def run(chk, prog):
             return False, exp
         wrapped = ("ctor", "Diff", (el, noc[0]), ())
         test = ("isinst", el, "Diff")
-        return body in (("phi", ("un", "not", test), wrapped, el), ("phi", test, el, wrapped)), exp
+        return body == ("phi", test, el, wrapped), exp
     sk = check_loop(chk, "eval_jaxpr_incremental", r, where, const_wrap=lambda t: t == dc("no_change", P("consts")), invar_value=lambda t: t == dc("tree_diff", P("primals"), P("tangents")), dispatch_ok=guard, out_wrap=out_wrap)
     # literals / un-tagged values wrapped NoChange before use
     if sk:
@@ -53,7 +53,7 @@ def run(chk, prog):
         for f in fams:
             el = mk_elem(f[1])
             NOC = [x for x in subterms(f[2]) if is_t(x, "global") and x[1].endswith("NoChange")]
-            want = ("phi", ("un", "not", ("isinst", el, "Diff")), ("ctor", "Diff", (el, NOC[0] if NOC else None), ()), el)
+            want = ("phi", ("isinst", el, "Diff"), el, ("ctor", "Diff", (el, NOC[0] if NOC else None), ()))
             der = show(f[2])[:200]
             if f[2] == want:
                 okl = True
